@@ -43,12 +43,33 @@ def nats (l : List Nat) : Val := .list (l.map (fun (n : Nat) => Val.int n))
   | nil => rfl
   | cons a as ih => simp [intsOf?, Val.asInt?, ih]
 
-@[simp] theorem ints_append (a b : List Int) : a.map Val.int ++ b.map Val.int = (a ++ b).map Val.int := by simp
+theorem intsOf_append (xs ys : List Val) :
+    intsOf? (xs ++ ys) = (match intsOf? xs, intsOf? ys with | some a, some b => some (a ++ b) | _, _ => Option.none) := by
+  induction xs with
+  | nil => cases h : intsOf? ys <;> simp [intsOf?, h]
+  | cons v vs ih =>
+    simp only [List.cons_append, intsOf?, ih]
+    cases v.asInt? <;> cases intsOf? vs <;> cases intsOf? ys <;> simp
+
+@[simp] theorem intsOf_ints_append (a : List Int) (ys : List Val) :
+    intsOf? (a.map Val.int ++ ys) = (intsOf? ys).map (fun b => a ++ b) := by
+  rw [intsOf_append, intsOf_ints]
+  cases intsOf? ys <;> rfl
 
 theorem rangeVals_eq (a : Int) (n : Nat) : rangeVals a (a + n) = (List.range n).map (fun (i : Nat) => Val.int (a + i)) := by
   unfold rangeVals
   have : (a + (n : Int) - a).toNat = n := by omega
   rw [this]
+
+/-- a `for` statement at the head of a block: the loop, then the rest. -/
+theorem execBlock_for (env : Env) (vs : Vars) (x : String) (iter : Expr) (body rest : List Stmt) (vals : List Val)
+    (h : (eval env vs iter).elems? = some vals) :
+    execBlock env vs (.for_ x iter body :: rest) =
+      (match forLoop (fun vs' v => execBlock env (vs'.set x v) body) vals vs with
+       | .cont vs' => execBlock env vs' rest
+       | o => o) := by
+  simp only [execBlock, exec, h]
+  cases forLoop (fun vs' v => execBlock env (vs'.set x v) body) vals vs <;> rfl
 
 /-- the symbolic-evaluation simp set: unfolds the interpreter on closed syntax. -/
 syntax "py_simp" (" [" Lean.Parser.Tactic.simpLemma,* "]")? : tactic
